@@ -212,30 +212,30 @@ type rec struct {
 	slot   atomic.Int64
 	seq    int
 
-	n         int
-	crashed   bool
-	inReplay  bool
-	propNow   bool
-	curInput  int
-	effects   []effect
-	calls     []callRec
-	bcasts    []bcast
-	commits   []commitRec
-	wal       []walRec
-	pendFrom  int
-	loaded    []string
-	unlogged  []string // logged-before-visible violations
-	storeErrs []string
-	fed       []int
-	fedSet    map[int]bool
-	armed     int
+	n            int
+	crashed      bool
+	inReplay     bool
+	propNow      bool
+	curInput     int
+	effects      []effect
+	calls        []callRec
+	bcasts       []bcast
+	commits      []commitRec
+	wal          []walRec
+	pendFrom     int
+	loaded       []string
+	unlogged     []string // logged-before-visible violations
+	storeErrs    []string
+	fed          []int
+	fedSet       map[int]bool
+	armed        int
 	strictDefers int
-	sched     []types.Timeout // ScheduleTimeout actions of the current call not yet executed
-	fedDesc   []string
-	openErr   error
-	runErr    error
-	panicVal  string
-	closed    bool
+	sched        []types.Timeout // ScheduleTimeout actions of the current call not yet executed
+	fedDesc      []string
+	openErr      error
+	runErr       error
+	panicVal     string
+	closed       bool
 }
 
 func (r *rec) isCrashed() bool {
@@ -442,8 +442,12 @@ func (r *rec) vote(kind byte, h types.Height, rd types.Round, id *H) {
 	r.leave()
 }
 
-func (b prevB) Broadcast(_ context.Context, m *starknet.Prevote)   { b.r.vote('V', m.Height, m.Round, m.ID) }
-func (b precB) Broadcast(_ context.Context, m *starknet.Precommit) { b.r.vote('C', m.Height, m.Round, m.ID) }
+func (b prevB) Broadcast(_ context.Context, m *starknet.Prevote) {
+	b.r.vote('V', m.Height, m.Round, m.ID)
+}
+func (b precB) Broadcast(_ context.Context, m *starknet.Precommit) {
+	b.r.vote('C', m.Height, m.Round, m.ID)
+}
 
 type commitL struct{ r *rec }
 
